@@ -52,6 +52,7 @@ yaml_bool_dom = z3.Function('sp_yaml_bool_dom', S, B)
 yaml_bool = z3.Function('sp_yaml_bool', S, B)
 enum_has = z3.Function('ct_enum_has', Ty, S, B)           # name in Enum class
 hook_new_ok = z3.Function('hook_new_ok', Ty, S, B)        # T(s) does not raise
+str_of_obj = z3.Function('sp_str_of_obj', S, S)           # str(obj built from s)
 hook_sav_ok = z3.Function('hook_sav_ok', Ty, so.YNode, B)
 hook_sav = z3.Function('hook_sav', Ty, so.YNode, so.YNode)
 hook_sav_msg = z3.Function('hook_sav_msg', Ty, so.YNode, S)
@@ -292,7 +293,8 @@ SPECB = ('tyset_empty', 'tyset_of', 'in_set', 'card0', 'card1', 'cardmany',
          'image_dict_key', 'image_dict_val', 'dashed', 'is_base_of', 'wf_ty', 'forall_in', 'sav_trace', 'empty_tys', 'prefix_of', 'document_type',
          'composed_document', 'yielded', 'is_enum_member', 'is_obj_of',
          'enum_has', 'new_ok', 'yaml_int_dom', 'yaml_float_dom',
-         'yaml_bool_dom', 'yaml_int', 'yaml_float', 'yaml_bool')
+         'yaml_bool_dom', 'yaml_int', 'yaml_float', 'yaml_bool', 'enum_name',
+         'pystr', 'vis_sweeten')
 
 
 ct_subclass = z3.Function('ct_subclass', Ty, Ty, B)       # issubclass(a, b)
@@ -312,6 +314,20 @@ class TypesPlugin:
             eng.assume_note('additional classes are {Path: "!Path"} '
                             '(established by load_function; C11/C04 frame)')
             return VDictC([(VTy(Ty.ty_Path), VStr('!Path'))])
+        if key == 'dumper':
+            # a yaml Dumper: yaml_representers' keys are the classes
+            # registered with this dump function
+            oid = st.new_obj({'yaml_representers': VSeq(REG_TYPES, 'ty'),
+                              '__dumper__': VBool(True)})
+            return VObj(oid, None)
+        if key == 'enumval':
+            return VPyObj('enum', fresh(prefix + '_cls', Ty),
+                          fresh(prefix + '_name', S))
+        if key == 'strlikeval':
+            return VPyObj('strlike', fresh(prefix + '_cls', Ty),
+                          fresh(prefix + '_s', S))
+        if key == 'pathval':
+            return VPyObj('path', None, fresh(prefix + '_s', S))
         if key == 'resolver':
             oid = st.new_obj({'__resolver__': VBool(True)})
             return VObj(oid, None)
@@ -331,6 +347,8 @@ class TypesPlugin:
 
     # ---------------------------------------------------------- attributes
     def value_attr(self, eng, v, name, st):
+        if isinstance(v, VPyObj) and v.what == 'enum' and name == 'name':
+            return [(st, VStr(v.arg))]
         if isinstance(v, VPyObj) and v.what == 'safe_constructor' and \
                 name in ('construct_yaml_int', 'construct_yaml_float',
                          'construct_yaml_bool'):
@@ -415,6 +433,16 @@ class TypesPlugin:
     def call_method(self, eng, recv, name, args, kwargs, st, node):
         if isinstance(recv, VObj) and name == 'resolve':
             return self.call_method_resolve(eng, args, st)
+        if isinstance(recv, VObj) and name == 'represent_str':
+            eng.assume_note('E-REPRESENT: represent_str(s) is a scalar node '
+                            'tagged str holding s')
+            a = args[0]
+            if not isinstance(a, VStr):
+                raise Unsupported('represent_str of a non-str', node)
+            from .terms import mk_scalar
+            return [(st, st.new_root(mk_scalar(
+                z3.StringVal('tag:yaml.org,2002:str'), a.t, so.GEN_MARK,
+                so.GEN_MARK), 'n'))]
         if isinstance(recv, VPyObj) and recv.what == 'safe_constructor':
             eng.assume_note('E-CONSTRUCT: SafeConstructor.construct_yaml_int/'
                             'float/bool as uninterpreted (domain, value); '
@@ -690,6 +718,8 @@ class TypesPlugin:
     def obj_attr(self, eng, v, name, st):
         if name == 'resolve':
             return [(st, VExtMethod(v, 'resolve'))]
+        if name == 'represent_str' and '__dumper__' in st.heap.get(v.oid, {}):
+            return [(st, VExtMethod(v, 'represent_str'))]
         return None
 
     def call_method_resolve(self, eng, args, st):
@@ -802,6 +832,12 @@ class TypesPlugin:
             return VFloat(yaml_float(args[0].t))
         if name == 'yaml_bool':
             return VBool(yaml_bool(args[0].t))
+        if name == 'enum_name':
+            return VStr(args[0].arg)
+        if name == 'pystr':
+            return eng.models.str_of(eng, args[0], st)
+        if name == 'vis_sweeten':
+            return VBool(ct_vis_sweeten(T(args[0])))
         if name == 'yielded':
             ys = [n[1] for n in st.notes if isinstance(n, tuple)
                   and n and n[0] == 'yield']
